@@ -209,6 +209,11 @@ func lifeOps(withAlign, withSkip bool) []lifeOp {
 			m.t.AllRows()[1].Add(tabular.NewCell(a.ptr))
 		}},
 	}
+	ops = append(ops, lifeOp{"cs := row1.Cells(); cs[0], cs[1] = cs[1], cs[0]  // two placed cells swapped by assignment through Cells()", func(m *lifeModel) bool { return len(m.rows[0]) >= 2 }, func(m *lifeModel) {
+		cs := m.t.AllRows()[0].Cells()
+		cs[0], cs[1] = cs[1], cs[0]
+		m.rows[0][0], m.rows[0][1] = m.rows[0][1], m.rows[0][0]
+	}})
 	if !withSkip {
 		// (not for JSON, which shows the item itself rather than the cell's text)
 		ops = append(ops, lifeOp{"AddRow(NewRow().Add(*CellAt(1,1)).Add(NewCell(cp)))  // a live cell copied by value into a new row", func(m *lifeModel) bool { return len(m.rows) < 4 && !m.copied }, func(m *lifeModel) {
